@@ -60,6 +60,20 @@ func main() {
 			*tier = "quick"
 		}
 		os.Exit(runCheck(id, *tier))
+	case "checkmany":
+		// self-test helper: several checks in one process, sharing one template expansion (quick tier)
+		if len(os.Args) < 3 {
+			usage()
+		}
+		checks.KeepExpansion = true
+		rc := 0
+		for _, id := range strings.Split(os.Args[2], ",") {
+			if c := runCheck(id, "quick"); c != 0 {
+				rc = c
+			}
+		}
+		checks.ReleaseExpansionNow()
+		os.Exit(rc)
 	case "expand":
 		// triage helper: expand the corpus and keep the scratch module (caller removes it)
 		ex, err := e3.Expand([]e3.Combo{{Runtime: "google"}, {Runtime: "gogo"}}, false)
